@@ -4,6 +4,7 @@ use similari::trackers::sort::voting::SortVoting;
 use similari::utils::bbox::Universal2DBox;
 use similari::voting::Voting;
 use std::collections::{HashMap, HashSet};
+use vh::posref::{judge_call, Judgement};
 use vh::posref::{check_positional, Verdict};
 use vh::rng::Hasher;
 use vh::trk::*;
@@ -119,6 +120,7 @@ fn layer_a(cli: &Cli, rep: &mut Report) {
 }
 
 fn layer_b(cli: &Cli, rep: &mut Report) {
+    let ctl = if cli.small { None } else { Some(vh::sched::Controller::install()) };
     let n = cli.cases(480, 8_000);
     for k in cli.index_range(n) {
         if k >> 48 != 0 {
@@ -152,6 +154,9 @@ fn layer_b(cli: &Cli, rep: &mut Report) {
         let mut trk = AnyTracker::new(&cfg);
         rep.eval();
         rep.count("layerB_histories");
+        // (scene, detections, records, pre-call snapshot, epoch) of every judged call, for the pipelined re-run below
+        let mut seq_log: Vec<(u64, Vec<Det>, Vec<Rec>, Vec<LiveTrack>, usize)> = vec![];
+        let mut seq_ok = true;
         for (ci, op) in ops.iter().enumerate() {
             let (scene, dets) = match op {
                 Op::Predict { scene, dets } => (*scene, dets),
@@ -162,7 +167,11 @@ fn layer_b(cli: &Cli, rep: &mut Report) {
             let recs = trk.predict(scene, dets);
             if recs.len() != dets.len() {
                 rep.violation("C02/tracker/record-count", idx, json!({"call": ci}));
+                seq_ok = false;
                 break;
+            }
+            if kind == Kind::BatchSort && !dets.is_empty() {
+                seq_log.push((scene, dets.clone(), recs.clone(), pre.clone(), epoch));
             }
             let pre_ids: HashSet<u64> = pre.iter().map(|t| t.id).collect();
             let assigned: Vec<Option<u64>> = recs.iter().map(|r| if pre_ids.contains(&r.id) { Some(r.id) } else { None }).collect();
@@ -193,8 +202,62 @@ fn layer_b(cli: &Cli, rep: &mut Report) {
                 Verdict::Skipped(why) => rep.count(&format!("layerB_calls_skipped/{}", why)),
                 Verdict::Violation(sig, d) => {
                     rep.violation(&format!("C02/tracker/{:?}/{}", kind, sig), idx, json!({"cfg": cfg.js(), "preset": w.preset, "call": ci, "scene": scene, "epoch": epoch, "detail": d}));
+                    seq_ok = false;
                     break;
                 }
+            }
+        }
+        drop(trk);
+        // BatchSort, second pass: the same calls submitted back to back as one-scene batches whose results are read by
+        // consumer threads (the pipelined use the batch API allows). A correct tracker associates call k against exactly
+        // the state the sequential run had before call k, so each pipelined outcome - ids translated through the bijection
+        // built so far - is judged against that snapshot by the same gate / optimal-assignment reference.
+        if kind == Kind::BatchSort && seq_ok && !cli.small && seq_log.len() >= 2 {
+            let mut t2 = AnyTracker::new(&cfg);
+            // two thirds of the pipelined passes: every store write of the voting threads is stalled for 0.1..1.5 ms at
+            // the guarded schedule point, so that the next batch is submitted while the previous one is still being applied
+            if let Some(c) = &ctl {
+                if rng.chance(0.67) {
+                    c.set_mode(vh::sched::Mode::Stall { site: "vote.store_write", us: 100 + rng.below(1400), seed: rng.u64() });
+                    rep.count("layerB_pipelined_passes_with_stalled_store_writes");
+                } else {
+                    c.set_mode(vh::sched::Mode::Record);
+                }
+            }
+            let rxs: Vec<_> = seq_log.iter().map(|(scene, dets, _, _, _)| t2.submit_with_consumer(&[(*scene, dets.clone())])).collect();
+            let mut to_seq: HashMap<u64, u64> = HashMap::new();
+            for (ci, (rx, (scene, dets, srecs, pre, epoch))) in rxs.into_iter().zip(seq_log.iter()).enumerate() {
+                let precs = match rx.recv() {
+                    Ok(mut v) if v.len() == 1 => v.pop().unwrap().1,
+                    _ => {
+                        rep.violation("C02/tracker/BatchSort/pipelined/result-never-delivered", idx, json!({"cfg": cfg.js(), "call": ci}));
+                        break;
+                    }
+                };
+                rep.count("layerB_pipelined_calls_compared");
+                let translated: Vec<Rec> = precs.iter().map(|r| {
+                    let mut t = r.clone();
+                    t.id = to_seq.get(&r.id).cloned().unwrap_or((1u64 << 62) | r.id);
+                    t
+                }).collect();
+                // same association as the judged sequential call?
+                let same = translated.len() == srecs.len() && translated.iter().zip(srecs.iter()).all(|(p, q)| p.id == q.id || (p.id >> 62 == 1 && !pre.iter().any(|t| t.id == q.id)));
+                if same {
+                    for (p, q) in precs.iter().zip(srecs.iter()) {
+                        to_seq.insert(p.id, q.id);
+                    }
+                    continue;
+                }
+                match judge_call(&cfg, *scene, *epoch, dets, &translated, pre) {
+                    Judgement::Invalid(sig, d) => rep.violation(&format!("C02/tracker/BatchSort/pipelined/{}", sig), idx, json!({"cfg": cfg.js(), "preset": w.preset, "call": ci, "scene": scene, "epoch": epoch, "detail": d,
+                        "sequential_records[id]": srecs.iter().map(|r| r.id).collect::<Vec<_>>(), "pipelined_records[id translated]": translated.iter().map(|r| r.id).collect::<Vec<_>>()})),
+                    _ => rep.count("layerB_pipelined_divergences_valid_or_undecidable"),
+                }
+                break;
+            }
+            drop(t2);
+            if let Some(c) = &ctl {
+                let _ = c.finish();
             }
         }
     }
@@ -203,7 +266,7 @@ fn layer_b(cli: &Cli, rep: &mut Report) {
 fn main() {
     let cli = Cli::parse();
     let mut rep = Report::new("C02", &cli);
-    rep.note("rule", json!("Layer A (engine): SortVoting::winners on weight matrices - exhaustively all matrices with <= 3 detections x <= 3 tracks over a 5-value grid straddling the threshold (absent pairs included), and random matrices up to 8 x 8 with planted greedy traps, stream order shuffled; the returned assignment must cover every query of the stream, be one-to-one, use only present pairs, and reach the optimum of an exact subset-DP in the engine's own integer scale (ties are therefore irrelevant). Layer B (tracker): before every Sort / BatchSort predict call the live tracks are snapshotted (last estimated box, last update epoch, raw Kalman state through the guarded accessor); gates and weights are recomputed in f64 (IoU x max(conf, min_conf) >= threshold; chi-square(5) gate on the squared Mahalanobis distance + bounding-circle reach; idle limit; scene) and the observed continuations must be clearly admissible pairs forming an assignment whose objective is within tolerance of the exact optimum; calls with a pair inside a 1e-4 gate band are counted as undecidable. Non-trivial: greedy (row-wise best-first) is strictly worse than the optimum; distinct by matrix / call hash."));
+    rep.note("rule", json!("Layer A (engine): SortVoting::winners on weight matrices - exhaustively all matrices with <= 3 detections x <= 3 tracks over a 5-value grid straddling the threshold (absent pairs included), and random matrices up to 8 x 8 with planted greedy traps, stream order shuffled; the returned assignment must cover every query of the stream, be one-to-one, use only present pairs, and reach the optimum of an exact subset-DP in the engine's own integer scale (ties are therefore irrelevant). Layer B (tracker): before every Sort / BatchSort predict call the live tracks are snapshotted (last estimated box, last update epoch, raw Kalman state through the guarded accessor); gates and weights are recomputed in f64 (IoU x max(conf, min_conf) >= threshold; chi-square(5) gate on the squared Mahalanobis distance + bounding-circle reach; idle limit; scene) and the observed continuations must be clearly admissible pairs forming an assignment whose objective is within tolerance of the exact optimum; calls with a pair inside a 1e-4 gate band are counted as undecidable. BatchSort histories are run a second time pipelined (one-scene batches submitted back to back, results read by consumer threads); every pipelined outcome is judged against the sequential run's pre-call snapshot. Non-trivial: greedy (row-wise best-first) is strictly worse than the optimum; distinct by matrix / call hash."));
     rep.note("assumptions", json!(["'>' versus '>=' at exact equality of a computed weight with the threshold is not judged (both outcomes have the same objective)", "calls with more than 16 candidate tracks of the scene are skipped (counted)"]));
     if !cli.small {
         layer_a(&cli, &mut rep);
